@@ -21,7 +21,7 @@ fn min_be(mut v: u64) -> Vec<u8> {
     out
 }
 
-fn req_case(cx: &mut Ctx, ops: &[String]) {
+pub fn req_case(cx: &mut Ctx, ops: &[String]) {
     let line = format!("ACC req {}", ops.join(";"));
     let r = guarded(|| {
         let mut req: CoapRequest<u8> = CoapRequest::new();
@@ -205,7 +205,7 @@ fn copy03(src: &Packet) -> Packet {
     d
 }
 
-fn view_case(cx: &mut Ctx, spec: &PktSpec, cleared: &[u16]) {
+pub fn view_case(cx: &mut Ctx, spec: &PktSpec, cleared: &[u16]) {
     let cl = if cleared.is_empty() { "_".to_string() } else { cleared.iter().map(|n| n.to_string()).collect::<Vec<_>>().join(",") };
     let build = || {
         let mut p = spec.build();
@@ -250,6 +250,106 @@ fn view_case(cx: &mut Ctx, spec: &PktSpec, cleared: &[u16]) {
             for q in [a, b] {
                 if view02(q) != want {
                     cx.oracle_fail("C19", &line, &format!("message copied through the generic interface shows {} instead of {}", view02(q), want));
+                }
+            }
+        }
+    }
+}
+
+/// in-place writes through `MutableWritableMessage` (coap-message 0.2 and 0.3):
+/// mutate_options (xor every byte i of a value of option n with (n + i) as u8 ^ x),
+/// payload_mut_with_len(len) (xor with x), truncate(t), and – 0.2 only – payload_mut (+1)
+fn mut02(p: &mut Packet, x: u8, len: usize, t: usize) -> String {
+    use coap_message::MutableWritableMessage;
+    let mut trace: Vec<String> = vec![];
+    p.mutate_options(|num, v| {
+        let n: u16 = num.into();
+        trace.push(format!("{}:{}", n, v.len()));
+        for (i, b) in v.iter_mut().enumerate() {
+            *b ^= (n as u8).wrapping_add(i as u8) ^ x;
+        }
+    });
+    for b in p.payload_mut_with_len(len).iter_mut() {
+        *b ^= x;
+    }
+    p.truncate(t);
+    for b in p.payload_mut().iter_mut() {
+        *b = b.wrapping_add(1);
+    }
+    format!("T[{}] {} {}", trace.join(","), dump(p), if p.available_space() == usize::MAX { "Sok" } else { "Sx" })
+}
+
+fn mut03(p: &mut Packet, x: u8, len: usize, t: usize) -> String {
+    use coap_message_0_3::MutableWritableMessage;
+    let mut trace: Vec<String> = vec![];
+    p.mutate_options(|num, v| {
+        let n: u16 = num.into();
+        trace.push(format!("{}:{}", n, v.len()));
+        for (i, b) in v.iter_mut().enumerate() {
+            *b ^= (n as u8).wrapping_add(i as u8) ^ x;
+        }
+    });
+    for b in p.payload_mut_with_len(len).unwrap().iter_mut() {
+        *b ^= x;
+    }
+    p.truncate(t).unwrap();
+    format!("T[{}] {} {}", trace.join(","), dump(p), if p.available_space() == usize::MAX { "Sok" } else { "Sx" })
+}
+
+pub fn mut_case(cx: &mut Ctx, spec: &PktSpec, cleared: &[u16], x: u8, len: usize, t: usize) {
+    let cl = if cleared.is_empty() { "_".to_string() } else { cleared.iter().map(|n| n.to_string()).collect::<Vec<_>>().join(",") };
+    let build = || {
+        let mut p = spec.build();
+        for n in cleared {
+            p.clear_option(CoapOption::from(*n));
+        }
+        p
+    };
+    let line = format!("ACC mut {} {} {} {} {}", cl, x, len, t, spec.line());
+    let r = guarded(|| {
+        let (mut a, mut b) = (build(), build());
+        let (sa, sb) = (mut02(&mut a, x, len, t), mut03(&mut b, x, len, t));
+        (sa, sb, a, b)
+    });
+    match &r {
+        None => {
+            cx.case(&line, "panic");
+            if spec.tok.len() <= 15 {
+                cx.oracle_fail("C19", &line, "a MutableWritableMessage method panicked");
+            }
+        }
+        Some((sa, sb, a, b)) => {
+            cx.case(&line, &format!("{} | {}", sa, sb));
+            cx.nontrivial(&line);
+            // reference: options in ascending number / insertion order, each value rewritten in place
+            let mut so = spec.sorted_opts();
+            so.retain(|(n, _)| !cleared.contains(n));
+            let want_trace = format!("T[{}]", so.iter().map(|(n, v)| format!("{}:{}", n, v.len())).collect::<Vec<_>>().join(","));
+            let want_opts: Vec<(u16, Vec<u8>)> = so.iter().map(|(n, v)| (*n, v.iter().enumerate().map(|(i, b)| b ^ (*n as u8).wrapping_add(i as u8) ^ x).collect())).collect();
+            let mut pay: Vec<u8> = spec.payload.clone();
+            pay.resize(len, 0);
+            for b in pay.iter_mut() {
+                *b ^= x;
+            }
+            pay.truncate(t);
+            let pay02: Vec<u8> = pay.iter().map(|b| b.wrapping_add(1)).collect();
+            for (which, s, q, wp) in [("0.2", sa, a, &pay02), ("0.3", sb, b, &pay)] {
+                let mut got: Vec<(u16, Vec<u8>)> = vec![];
+                for (n, l) in q.options() {
+                    for v in l.iter() {
+                        got.push((*n, v.clone()));
+                    }
+                }
+                if !s.starts_with(&format!("{} ", want_trace)) {
+                    cx.oracle_fail("C19", &line, &format!("coap-message {} mutate_options visited {} instead of {}", which, s.split(' ').next().unwrap_or(""), want_trace));
+                } else if got != want_opts {
+                    cx.oracle_fail("C19", &line, &format!("coap-message {} mutate_options: raw options afterwards are not the values written through the callback", which));
+                } else if &q.payload != wp {
+                    cx.oracle_fail("C19", &line, &format!("coap-message {} payload_mut_with_len({}) / truncate({}): payload {} instead of {}", which, len, t, hex(&q.payload), hex(wp)));
+                } else if !s.ends_with("Sok") {
+                    cx.oracle_fail("C19", &line, "available_space is not usize::MAX");
+                } else if u8::from(q.header.code) != spec.code.byte() || q.header.message_id != spec.mid {
+                    cx.oracle_fail("C19", &line, "in-place writes changed the code / message id");
                 }
             }
         }
@@ -432,5 +532,32 @@ pub fn run(cx: &mut Ctx) {
         let pl = rng.below(6) as usize;
         let spec = PktSpec { vtt: 0x40 | tkl as u8, code, mid: rng.below(65536) as u16, tok: rng.bytes(tkl), opts, payload: rng.bytes(pl) };
         view_case(cx, &spec, &cleared);
+    }    // in-place writes through MutableWritableMessage (both trait versions)
+    let nm = if thorough { 20000 } else { 4000 };
+    for i in 0..nm {
+        let tkl = rng.below(9) as usize;
+        let nopts = rng.below(6) as usize;
+        let mut opts = vec![];
+        for _ in 0..nopts {
+            let num = *rng.pick(&[1u16, 4, 6, 11, 11, 12, 15, 23, 27, 60, 258, 300, 65535, 0]);
+            let k = *rng.pick(&[0usize, 0, 1, 2, 3, 4, 12, 13, 300]);
+            opts.push((num, rng.bytes(k)));
+        }
+        let cleared: Vec<u16> = if rng.chance(1, 4) && !opts.is_empty() { vec![opts[rng.below(opts.len() as u64) as usize].0] } else { vec![] };
+        let pl = *rng.pick(&[0usize, 1, 2, 5, 16, 40]);
+        let spec = PktSpec { vtt: 0x40 | tkl as u8, code: CodeSpec::Byte(*rng.pick(&[1u8, 2, 0x45, 0x84, 0])), mid: rng.below(65536) as u16, tok: rng.bytes(tkl), opts, payload: rng.bytes(pl) };
+        let len = match i % 4 {
+            0 => pl,
+            1 => rng.below(pl as u64 + 1) as usize,
+            2 => pl + rng.below(20) as usize,
+            _ => *rng.pick(&[0usize, 1, 255, 256, 1000]),
+        };
+        let t = match rng.below(4) {
+            0 => len,
+            1 => rng.below(len as u64 + 1) as usize,
+            2 => len + 1 + rng.below(5) as usize,
+            _ => 0,
+        };
+        mut_case(cx, &spec, &cleared, rng.below(256) as u8, len, t);
     }
 }
